@@ -118,6 +118,15 @@ public:
 
   void rollback();
 
+  /**
+   * A unit is a source compiled as a whole (see Parser::parse). Declarations
+   * take effect while parsing, so they are journalized to be reverted when a
+   * later statement of the same unit is rejected.
+   */
+  void beginUnit() { _unit_changes.clear(); _unit_open = true; }
+  void commitUnit() { _unit_changes.clear(); _unit_open = false; }
+  void rollbackUnit();
+
   Entry& getDeclaration(unsigned id)
   {
     return _declarations[id];
@@ -177,6 +186,9 @@ private:
   container _declarations;
   FunctorPtr _backed;
   unsigned _backed_id = nid;
+  /* journal of the current unit: the replaced functor, or null for a new entry */
+  std::vector<FunctorPtr> _unit_changes;
+  bool _unit_open = false;
 };
 
 }
